@@ -25,7 +25,7 @@ Proof.
   intros [rows [-> [L F]]] Lr E. unfold vstack in E. inv_ok.
   exists (rows ++ [row]). repeat split.
   - rewrite app_length. simpl. lia.
-  - apply Forall_app. split; [exact F | constructor; [exact Lr | constructor]].
+  - apply Forall_app. split; [exact F | constructor; [first [exact Lr | reflexivity] | constructor]].
 Qed.
 
 Lemma map_rows_shape k n m a g a' :
@@ -34,7 +34,7 @@ Lemma map_rows_shape k n m a g a' :
 Proof.
   intros [rows [-> [L F]]] Hg E. unfold map_rows in E. inv_ok.
   exists a. repeat split.
-  - rewrite (mapM_length _ _ _ E0). exact L.
+  - rewrite (mapM_length _ _ _ E0). first [exact L | reflexivity].
   - eapply mapM_Forall; [|exact E0]. intros x y Hx Hy. rewrite Forall_forall in F. eapply Hg; eauto.
 Qed.
 
@@ -48,8 +48,8 @@ Proof.
   destruct ((a =? 0) || (nbins h <? a)); [injection E as <-; exact Sh|].
   inv_ok. destruct Sh as [Hn [He [SH [SR [SE [SS SY]]]]]].
   unfold Shape; cbn. repeat split; auto.
-  - eapply upd_last_row_shape; [exact SH | | exact E0]. intros r r' Lr Er. rewrite (add_at_length _ _ _ _ Er). exact Lr.
-  - eapply upd_last_row_shape; [exact SR | | exact E1]. intros r r' Lr Er. rewrite (add_at_length _ _ _ _ Er). exact Lr.
+  - eapply upd_last_row_shape; [exact SH | | eassumption]. intros r r' Lr Er. rewrite (add_at_length _ _ _ _ Er). exact Lr.
+  - eapply upd_last_row_shape; [exact SR | | eassumption]. intros r r' Lr Er. rewrite (add_at_length _ _ _ _ Er). exact Lr.
 Qed.
 
 Lemma fill_elem_shape h v w h' : Shape h -> fill_elem h v w = Ok h' -> Shape h'.
@@ -81,8 +81,13 @@ Qed.
 Lemma add_histogram_shape h h' : Shape h -> add_histogram h = Ok h' -> Shape h'.
 Proof.
   intros [Hn [He [SH [SR [SE [SS SY]]]]]] E. unfold add_histogram in E. inv_ok.
-  unfold Shape; cbn. repeat split; auto; try lia;
-  (eapply vstack_shape; [eassumption | first [apply zeros_length | apply ones_length] | eassumption]).
+  unfold Shape; cbn.
+  split; [lia|]. split; [exact He|].
+  split; [eapply vstack_shape; [exact SH | apply zeros_length | exact E0]|].
+  split; [eapply vstack_shape; [exact SR | apply zeros_length | exact E1]|].
+  split; [eapply vstack_shape; [exact SE | apply zeros_length | exact E3]|].
+  split; [eapply vstack_shape; [exact SS | apply ones_length | exact E2]|].
+  eapply vstack_shape; [exact SY | apply zeros_length | exact E4].
 Qed.
 
 (* ---------------------------------------------------------------- set_error / set_systematic_error *)
@@ -93,22 +98,22 @@ Proof.
   apply Forall_app in F. destruct F as [F1 F2].
   destruct (Nat.eqb (length x) (length l)); [|discriminate]. injection Fx as <-.
   exists (pre ++ [l]). repeat split.
-  - rewrite app_length in *. simpl in *. lia.
-  - apply Forall_app. split; [exact F1 | constructor; [exact Ll | constructor]].
+  - rewrite !app_length in *. simpl in *. lia.
+  - apply Forall_app. split; [exact F1 | constructor; [first [exact Ll | reflexivity] | constructor]].
 Qed.
 
 Lemma set_error_shape h l h' : Shape h -> set_error h l = Ok h' -> Shape h'.
 Proof.
   intros [Hn [He [SH [SR [SE [SS SY]]]]]] E. unfold set_error in E.
   destruct (Nat.eqb (length l) (nbins h)) eqn:L; [|discriminate]. cbn [negb] in E. apply Nat.eqb_eq in L. inv_ok.
-  unfold Shape; cbn. repeat split; auto. eapply set_last_row_shape; eauto.
+  unfold Shape; cbn. repeat split; auto. eapply set_last_row_shape; [exact SE | exact L | exact E0].
 Qed.
 
 Lemma set_systematic_error_shape h l h' : Shape h -> set_systematic_error h l = Ok h' -> Shape h'.
 Proof.
   intros [Hn [He [SH [SR [SE [SS SY]]]]]] E. unfold set_systematic_error in E.
   destruct (Nat.eqb (length l) (nbins h)) eqn:L; [|discriminate]. cbn [negb] in E. apply Nat.eqb_eq in L. inv_ok.
-  unfold Shape; cbn. repeat split; auto. eapply set_last_row_shape; eauto.
+  unfold Shape; cbn. repeat split; auto. eapply set_last_row_shape; [exact SY | exact L | exact E0].
 Qed.
 
 (* ---------------------------------------------------------------- scale / statistical error / density *)
